@@ -168,7 +168,16 @@ def op_kind(cmd):
 def analyse(meta, evs, pushes):
     """returns dict: per-key acceptor lines, client ops, finals, overlap counts, stand-in sanity problems"""
     inkeys = set(unhex(k) for k in meta['inkeys'])
-    stores = {'R1': Store(), 'R2': Store()}
+    # destination (proxy, node) of every range key: one migration (P2/R2) or, in the `multi` runs, the key's part
+    parts = meta.get('parts')
+    dest = {}
+    for i, hk in enumerate(meta['inkeys']):
+        if parts and 'inkeys_part' in meta and i < len(meta['inkeys_part']):
+            pt = parts[meta['inkeys_part'][i]]
+            dest[unhex(hk)] = (pt['dst_proxy'], pt['dst_node'])
+        else:
+            dest[unhex(hk)] = ('P2', 'R2')
+    stores = {'R1': Store(), 'R2': Store(), 'R3': Store()}
     ops = {}            # opid -> dict
     keyev = {}          # key -> list of (seq, tokens)
     writers = {}        # (key, value or suffix) -> opid
@@ -200,10 +209,13 @@ def analyse(meta, evs, pushes):
                 continue
             if name == b'SCAN':
                 continue
-            who = {('R1', 'P1', 'conn'): 'c', ('R1', 'P2', 'conn'): 'p', ('R1', 'P1', 'client'): 'x',
-                   ('R2', 'P2', 'conn'): 'p', ('R2', 'P1', 'client'): 'x'}.get((e['node'], e['owner'], e['via']))
-            side = 's' if e['node'] == 'R1' else 'd'
             for k, old in pre.items():
+                dp, dn = dest.get(k, ('P2', 'R2'))
+                who = {('R1', 'P1', 'conn'): 'c', ('R1', dp, 'conn'): 'p', ('R1', 'P1', 'client'): 'x',
+                       (dn, dp, 'conn'): 'p', (dn, 'P1', 'client'): 'x'}.get((e['node'], e['owner'], e['via']))
+                side = 's' if e['node'] == 'R1' else 'd'
+                if k not in dest:
+                    continue              # a key outside the moving ranges: only the client-history monitors look at it
                 if who is None:
                     unexpected.append({'seq': e['seq'], 'node': e['node'], 'owner': e['owner'], 'via': e['via'], 'cmd': name.decode()})
                     continue
@@ -254,10 +266,11 @@ def analyse(meta, evs, pushes):
                 else:
                     side, who, nm, pv, opid, kd, val = x
                     toks.append('%s %s %s %s %d %s %s' % (side, who, nm, pv, idx.get(opid, -1), kd, val))
+        dn = dest[k][1]
         if 'R1' in finals:
             v = finals['R1'].get(k); toks.append('fin s ' + ('nil' if v is None else 'val:' + hx(v)))
-        if 'R2' in finals:
-            v = finals['R2'].get(k); toks.append('fin d ' + ('nil' if v is None else 'val:' + hx(v)))
+        if dn in finals:
+            v = finals[dn].get(k); toks.append('fin d ' + ('nil' if v is None else 'val:' + hx(v)))
         i0 = init.get(k)
         lines[k] = 'accept %s | %s' % ('nil' if i0 is None else 'val:' + hx(i0), ' | '.join(toks))
     # how many client operations overlapped each source phase
@@ -274,7 +287,7 @@ def analyse(meta, evs, pushes):
                 seen.add(s)
         for s in seen:
             overlap[s] = overlap.get(s, 0) + 1
-    return {'lines': lines, 'ops': ops, 'finals': finals, 'init': init, 'overlap': overlap, 'inkeys': inkeys,
+    return {'lines': lines, 'ops': ops, 'finals': finals, 'init': init, 'overlap': overlap, 'inkeys': inkeys, 'dest': dest,
             'standin_problems': stores['R1'].bad + stores['R2'].bad, 'unexpected': unexpected}
 
 
@@ -347,12 +360,13 @@ def monitors(an):
     nerr = sum(1 for o in an['ops'].values() if o['reply'] and o['reply'].startswith('E '))
     for k, os_ in byk.items():
         inr = k in an['inkeys']
-        home, other = ('R2', 'R1') if inr else ('R1', 'R2')
+        home = an['dest'].get(k, ('P2', 'R2'))[1] if inr else 'R1'
         fin = None
         if home in finals:
             fin = finals[home].get(k)
-            if other in finals and k in finals[other]:
-                bad.append({'key': k.decode('latin1'), 'what': 'key still present on %s after the commit (value %r)' % (other, finals[other][k])})
+            for other in finals:
+                if other != home and k in finals[other]:
+                    bad.append({'key': k.decode('latin1'), 'what': 'key still present on %s after the commit (value %r)' % (other, finals[other][k])})
         r = linearizable(os_, an['init'].get(k), fin) if home in finals else linearizable(os_, an['init'].get(k), None)
         if r:
             bad.append({'key': k.decode('latin1'), 'what': r,
@@ -507,6 +521,71 @@ def collide_check(chk, pushes, stats):
     return out
 
 
+def multi_cases(chk):
+    r = chk.rng
+    directed, traffic = [], []
+    if chk.tier == 'quick':
+        directed = [(2, 2, 'del', 2, 0), (2, 1, 'del', 1, 1), (2, 2, 'sdiffstore', 3, 0), (3, 2, 'del', 1, 0)]
+        traffic = [(2, 2, 2, 0), (2, 1, 3, 1)]
+    else:
+        for parts in (2, 3):
+            for ndst in (1, 2):
+                for kind in ('del', 'sdiffstore'):
+                    for conns in (1, 2, 3):
+                        directed.append((parts, ndst, kind, conns, (parts + conns) % 2))
+        for i in range(12):
+            traffic.append((2 + i % 2, 1 + (i // 2) % 2, 1 + i % 3, (i // 4) % 2))
+    return directed, [(p, d, c, a, r.randrange(1, 10**6)) for p, d, c, a in traffic]
+
+
+def multi_monitor(r):
+    if not r.startswith('multi ok'):
+        return 'scenario did not complete: ' + r[:240]
+    m = dict(t.split('=', 1) for t in r.split() if '=' in t)
+    if m.get('mode') != 'directed':
+        return None
+    dels, reads, fins = m['del_replies'].split(';'), m['reads'].split(';'), m['final_reads'].split(';')
+    if any(x not in ('I_31', 'I_30') for x in dels):
+        return 'a deleting command was not answered normally: ' + m['del_replies']
+    if any(x not in ('BN', 'A_0') for x in reads + fins):
+        return ('a key deleted through its importing proxy (replies %s) is readable again: reads right after the delete %s, reads after the commit %s '
+                '(the source proxy runs %s migrating tasks at once; the key was still on the source)' % (m['del_replies'], m['reads'], m['final_reads'], m['parts']))
+    return None
+
+
+def multi_check(chk, pushes, stats):
+    """the SOURCE proxy runs 2 (3) migrating tasks at once (different ranges, to one or two destination proxies): directed runs
+    (every scanner held at its first SCAN, a deleting command for a key of EVERY task through its importing proxy, read back)
+    and random traffic on every range through every proxy; acceptor + monitors on every trace"""
+    out = []
+    directed, traffic = multi_cases(chk)
+    lines = []
+    for i, (parts, ndst, kind, conns, active) in enumerate(directed):
+        path = '%s/c03_multi_%s_d%d.jsonl' % (vlib.WORK, chk.tier, i)
+        lines.append(('multi mode=directed parts=%d ndst=%d kind=%s conns=%d active=%d out=%s' % (parts, ndst, kind, conns, active, path), path, kind == 'del'))
+    for i, (parts, ndst, conns, active, seed) in enumerate(traffic):
+        path = '%s/c03_multi_%s_t%d.jsonl' % (vlib.WORK, chk.tier, i)
+        lines.append(('multi mode=traffic parts=%d ndst=%d conns=%d active=%d seed=%d nkeys=60 nout=16 clients=6 ops=250 lat=2000 out=%s timeout_ms=90000'
+                      % (parts, ndst, conns, active, seed, path), path, True))
+    for line, path, analyse_trace in lines:
+        if os.path.exists(path): os.remove(path)
+        rc, res = chk.run_impl('migrate', [line], timeout=150)
+        r = res[0] if res else '<no output>'
+        chk.count(line, True)
+        stats['multi'].append(r)
+        bad = multi_monitor(r)
+        if bad:
+            if 'did not complete' in bad and 'mode=traffic' in line:
+                stats['timeouts'] += 1
+            else:
+                out.append({'kind': 'monitor', 'case': line, 'impl': r, 'what': bad,
+                            'model': 'Model/Migrate.v: a pushing command reaches PFwd only after its UMSYNC transfer (fast or slow path), after the scan passed the key, '
+                                     'or (EvSyncNotFound) after the commit - never while the source copy exists and its task is running'})
+        if analyse_trace and os.path.exists(path):
+            out += run_one_trace(chk, line, path, pushes, stats)
+    return out
+
+
 def run(chk):
     ok = vlib.standard_proof_phase(chk, TRUSTED, 'migrate')
     chk.cov['rule'] = ('cases = (i) every command name of docs/command_table.json through the real requires_blocking_migration (exhaustive), '
@@ -514,7 +593,9 @@ def run(chk):
                        'backend connections 1..3, active redirection on/off, 0-2 ms stand-in latency), each yielding one acceptor case per in-range key, '
                        '(iii) deterministic witness replays (held scanner RESTORE vs SDIFFSTORE/SINTERSTORE/DEL), (iv) directed lock-collision schedules '
                        '(2 or 3 range keys with the same migration lock slot in one scan batch while the UMSYNC of one of them - first / later in the batch, DEL or SDIFFSTORE - '
-                       'holds the slot lock: held SCAN, held UMSYNC PTTL, held scanner RESTORE), each DEL run also through acceptor + monitors. evaluations = acceptor cases + classify cases + witness cases; '
+                       'holds the slot lock: held SCAN, held UMSYNC PTTL, held scanner RESTORE), each DEL run also through acceptor + monitors, (v) runs in which the source proxy has 2 or 3 migrating '
+                       'tasks at once towards one or two destination proxies (P2, P3): directed (scanners held, a deleting command for a key of every task through its importing proxy, read back) '
+                       'and random traffic on every range through every proxy, all through acceptor + monitors. evaluations = acceptor cases + classify cases + witness cases; '
                        'non-trivial = distinct per-key trace with more than 3 Redis-level events on the key (it was pulled, pushed or scanned while clients used it)')
     if not ok:
         return
@@ -529,9 +610,10 @@ def run(chk):
     _, cls = chk.run_impl('migrate', ['classify ' + n for n in ('GET', 'SET', 'DEL', 'APPEND')])
     pushes = {o.split()[1]: o.split()[2] == '1' for o in cls if o.startswith('classify')}
     stats = {'client_ops': 0, 'error_replies': 0, 'overlap': {}, 'keys': 0, 'key_events': 0, 'accepted': 0, 'hidden_steps': 0, 'budget': 0,
-             'outside_premise': [], 'witness': [], 'runs': [], 'timeouts': 0, 'collide': []}
+             'outside_premise': [], 'witness': [], 'runs': [], 'timeouts': 0, 'collide': [], 'multi': []}
     viol = witness_check(chk, stats)
     viol += collide_check(chk, pushes, stats)
+    viol += multi_check(chk, pushes, stats)
     for i, c in enumerate(mig_cases(chk)):
         path = '%s/c03_%s_%d.jsonl' % (vlib.WORK, chk.tier, i)
         line = case_line(c, path)
@@ -551,7 +633,7 @@ def run(chk):
             client_ops_on_range_keys_overlapping_source_phase=stats['overlap'], keys=stats['keys'], observed_events_on_keys=stats['key_events'],
             accepted=stats['accepted'], hidden_model_steps=stats['hidden_steps'], acceptor_budget_exceeded=stats['budget'],
             accepted_only_outside_premise=stats['outside_premise'][:10], witness=stats['witness'], run_summaries=stats['runs'][:12],
-            collide=stats['collide'][:20], collide_schedule_reached=stats.get('collide_schedule_reached'))
+            collide=stats['collide'][:20], collide_schedule_reached=stats.get('collide_schedule_reached'), multi_task_runs=stats['multi'][:24])
     for v in viol:
         ni = v.pop('no_input', False)
         chk.violation(v, no_input=ni)
@@ -575,19 +657,19 @@ def replay(data):
         badr = ('dst_has_key=1' in r) or ('final_read=A 0' not in r and 'final_read=BN' not in r)
         print('model: C03_unclassified_delete_refuted predicts resurrection iff the command is not classified deleting')
         return 1 if badr else 0
-    if c.startswith('collide'):
+    if c.startswith('collide') or c.startswith('multi'):
         _, impl = chk.run_impl('migrate', [c], timeout=300)
         print('case :', c); print('impl :', impl)
         r = impl[0] if impl else ''
-        bad = collide_monitor(r)
+        bad = collide_monitor(r) if c.startswith('collide') else multi_monitor(r)
         print('monitor:', bad)
         v = []
         path = re.search(r'out=(\S+)', c).group(1)
-        if 'kind=del' in c and os.path.exists(path):
+        if ('kind=del' in c or 'mode=traffic' in c) and os.path.exists(path):
             _, cls = chk.run_impl('migrate', ['classify ' + n for n in ('GET', 'SET', 'DEL', 'APPEND')])
             pushes = {o.split()[1]: o.split()[2] == '1' for o in cls if o.startswith('classify')}
             stats = {'client_ops': 0, 'error_replies': 0, 'overlap': {}, 'keys': 0, 'key_events': 0, 'accepted': 0, 'hidden_steps': 0, 'budget': 0,
-                     'outside_premise': [], 'witness': [], 'runs': [], 'timeouts': 0, 'collide': []}
+                     'outside_premise': [], 'witness': [], 'runs': [], 'timeouts': 0, 'collide': [], 'multi': []}
             v = run_one_trace(chk, c, path, pushes, stats)
             print('keys=%d accepted=%d' % (stats['keys'], stats['accepted']))
             for x in v[:4]:
